@@ -380,6 +380,92 @@ def run(ctx) -> list[Inst]:
                      f"assets can end up with the same name (e.g. names A, A:2, A with ids 1,2,3)"),
                 file=rel, line=(b[2].lineno if b else call.lineno), props=props_d))
     insts += _stable_keys(ctx)
+    insts += _remove_self(ctx)
+    return insts
+
+
+REMOVERS = [
+    # function, object parameter, primary container attribute, props
+    ('Model.remove_attacker', 'attacker', 'attackers', ('C05',)),
+    ('Model.remove_asset', 'asset', 'assets', ('C05',)),
+    ('Model.remove_association', 'association', 'associations', ('C05',)),
+    ('AttackGraph.remove_node', 'node', 'nodes', ('C09', 'C13')),
+    ('AttackGraph.remove_attacker', 'attacker', 'attackers', ('C09', 'C11')),
+]
+
+
+def _remove_self(ctx) -> list[Inst]:
+    """(f) a remover takes out THE object it was given: `C.remove(obj)` (or an index obtained from obj itself).
+    Selecting the element to delete by comparing a key (`cand.id == obj.id`) removes a look-alike whenever that key
+    is not guaranteed unique in the container (Model attacker ids are not: add_attacker accepts duplicates)."""
+    from .r08_codec import UNIQUE_KEYS
+    prog = ctx.prog
+    insts = []
+    for fname, objp, cattr, props in REMOVERS:
+        if not prog.has_func(fname):
+            continue
+        f = prog.func(fname)
+        rel = f.module.relpath
+        env = prog.env(f)
+        construct = f'(f) {fname} removes the object it was given from {cattr}'
+        found = None
+        for n in own_nodes(f.node):
+            # self.C.remove(obj)
+            if isinstance(n, ast.Call) and isinstance(n.func, ast.Attribute) and n.func.attr == 'remove' \
+                    and isinstance(n.func.value, ast.Attribute) and n.func.value.attr == cattr and n.args:
+                a = n.args[0]
+                found = ('ok', n, '') if isinstance(a, ast.Name) and a.id == objp else \
+                    ('unproven', n, f"'{stmt_text(n)}' removes something other than the parameter")
+            # del self.C[i] / self.C.pop(i)
+            tgt = None
+            if isinstance(n, ast.Delete):
+                for t in n.targets:
+                    if isinstance(t, ast.Subscript) and isinstance(t.value, ast.Attribute) and t.value.attr == cattr:
+                        tgt = (n, t.slice)
+            if isinstance(n, ast.Call) and isinstance(n.func, ast.Attribute) and n.func.attr == 'pop' \
+                    and isinstance(n.func.value, ast.Attribute) and n.func.value.attr == cattr and n.args:
+                tgt = (n, n.args[0])
+            if tgt is not None:
+                stn, idx = tgt
+                itxt = stmt_text(idx)
+                if f'.index({objp})' in itxt:
+                    found = ('ok', stn, '')
+                    continue
+                # index chosen by a comparison in an enclosing if: which fields are compared?
+                keys = []
+                for g in own_nodes(f.node):
+                    if isinstance(g, ast.If) and any(x is stn for b in g.body for x in ast.walk(b)):
+                        for cmp_ in ast.walk(g.test):
+                            if isinstance(cmp_, ast.Compare) and len(cmp_.ops) == 1 and isinstance(cmp_.ops[0], ast.Eq):
+                                l, r = cmp_.left, cmp_.comparators[0]
+                                if isinstance(l, ast.Attribute) and isinstance(r, ast.Attribute) and l.attr == r.attr \
+                                        and any(isinstance(z, ast.Name) and z.id == objp for z in (l.value, r.value)):
+                                    keys.append((l.attr, cmp_))
+                            if isinstance(cmp_, ast.Compare) and len(cmp_.ops) == 1 and isinstance(cmp_.ops[0], ast.Is) \
+                                    and any(isinstance(z, ast.Name) and z.id == objp
+                                            for z in (cmp_.left, cmp_.comparators[0])):
+                                keys.append(('<identity>', cmp_))
+                if any(k == '<identity>' for k, _ in keys):
+                    found = ('ok', stn, '')
+                elif keys:
+                    k, c_ = keys[0]
+                    t = env.type_of(ast.Name(id=objp, ctx=ast.Load()))
+                    owner = t[1] if t[0] == 'cls' else 'pjs'
+                    if (owner, k) in UNIQUE_KEYS:
+                        found = ('ok', stn, f'{owner}.{k} is unique')
+                    else:
+                        found = ('violation', stn,
+                                 f"'{stmt_text(stn, 60)}' deletes the first element whose {k} equals {objp}.{k} "
+                                 f"('{stmt_text(c_)}'), not {objp} itself: {owner}.{k} is not guaranteed unique in "
+                                 f"{cattr}, so another object is removed and {objp} stays")
+                else:
+                    found = found or ('unproven', stn, 'how the deleted position is chosen is not recognised')
+        if found is None:
+            insts.append(Inst(RULE, fname, construct, 'unproven', msg=f'no removal from {cattr} recognised', file=rel,
+                              line=f.node.lineno, props=props))
+        else:
+            v, n, msg = found
+            insts.append(Inst(RULE, fname, construct, v, msg=msg, file=rel, line=n.lineno, props=props))
     return insts
 
 
